@@ -243,8 +243,8 @@ func init() {
 				return append(out, TW("second-half"), TW("not-served"), TW("iso"), TBool(true))
 			}
 		case "other-dials-slowly":
-			// another logical connection's service takes 2.5 s to reach; connections opened meanwhile on the same session must select
-			// their channel and move data at once (each bounded by 1.2 s here), not when that dial has finished
+			// another logical connection's service takes 4 s to reach; connections opened meanwhile on the same session must select
+			// their channel and move data at once (each bounded by 2 s here), not when that dial has finished
 			fa, err := w.addListener("slowdial", clientCfg("none", false, true), "")
 			if err != nil {
 				return append(out, TW("first-half"), TW("setup"))
@@ -256,14 +256,14 @@ func init() {
 			time.Sleep(150 * time.Millisecond)
 			for i := 1; i < k; i++ {
 				t0 := time.Now()
-				appB, tB, err := w.dialApp(1200 * time.Millisecond)
+				appB, tB, err := w.dialApp(2 * time.Second)
 				if err != nil {
 					return append(out, TW("not-served"), TW("iso"), TBool(true))
 				}
-				s, ok := echoOnce(appB, tB, patBytes(i, 600), 1200*time.Millisecond)
+				s, ok := echoOnce(appB, tB, patBytes(i, 600), 2*time.Second)
 				appB.Close()
 				tB.Close()
-				if !ok || time.Since(t0) > 1500*time.Millisecond {
+				if !ok || time.Since(t0) > 2500*time.Millisecond {
 					return append(out, TW("delayed-"+s), TW("iso"), TBool(true))
 				}
 				out = append(out, TW("ok"))
